@@ -4,40 +4,36 @@ From Coq Require Import String.
 From UV Require Import Base.Bytes Model.WireTypes Model.Codec Model.Interp Model.Cases18 Spec.WireSpec.
 Open Scope N_scope.
 
-(* the header bytes a layout fixes *)
-Definition som_of (L : layout) : N :=
-  match filter (fun f => match f with FSOM _ => true | _ => false end) L with
-  | FSOM (Some (Some t)) :: _ => t
-  | _ => 0x17
-  end.
-Definition msgtype_of (L : layout) : N :=
-  match filter (fun f => match f with FMsgType _ => true | _ => false end) L with
-  | FMsgType (Some (Some t)) :: _ => t
-  | _ => 0
+(* the bytes a field contributes to the message: fixed tags win over the field's value; None = nothing *)
+Definition fbytes (f : field) (v : fval) : option (list N) :=
+  match f with
+  | FSOM (Some (Some t)) => Some [t]
+  | FMsgType (Some (Some t)) => Some [t]
+  | FData KU8 _ (Some (Some t)) => Some [t]
+  | FData k _ _ => spec_bytes k v
+  | _ => None
   end.
 
-(* byte i of the image: the byte of the (unique) field covering i, else zero *)
-Fixpoint covering (L : layout) (vs : list fval) (i : nat) : N :=
+(* byte i of the image: the byte of the field whose span covers i ... *)
+Fixpoint image_at (L : layout) (vs : list fval) (i : nat) : option N :=
   match L, vs with
-  | FData k off vtag :: L', v :: vs' =>
-      if Nat.leb off i && Nat.ltb i (off + width k)
-      then match vtag, k with
-           | Some (Some t), KU8 => t
-           | _, _ => match spec_bytes k v with Some bs => nth (i - off) bs 0 | None => 0 end
-           end
-      else covering L' vs' i
-  | _ :: L', _ :: vs' => covering L' vs' i
-  | _, _ => 0
+  | f :: L', v :: vs' =>
+      match fspan f, fbytes f v with
+      | Some (off, w), Some bs => if Nat.leb off i && Nat.ltb i (off + w) then Some (nth (i - off) bs 0) else image_at L' vs' i
+      | _, _ => image_at L' vs' i
+      end
+  | _, _ => None
   end.
 
+(* ... else the default start-of-message 0x17 in byte 0 and zero everywhere else *)
 Definition image_byte (L : layout) (vs : list fval) (i : nat) : N :=
-  match i with
-  | O => som_of L
-  | S O => msgtype_of L
-  | _ => covering L vs i
-  end.
+  match image_at L vs i with Some x => x | None => match i with O => 0x17 | _ => 0 end end.
 
 Definition spec_image (L : layout) (vs : list fval) : list N := map (image_byte L vs) (seq 0 64).
+
+(* the function code in byte 1 is the one the layout fixes *)
+Definition msgtypes_match (L : layout) (buf : list N) : bool :=
+  forallb (fun f => match f with FMsgType (Some (Some t)) => nth 1 buf 0 =? t | _ => true end) L.
 
 Fixpoint values_in_domain (L : layout) (vs : list fval) : bool :=
   match L, vs with
@@ -60,12 +56,7 @@ Definition field_result (f : field) (buf : list N) : option (kind * dres) :=
   end.
 
 Definition header_ok (L : layout) (buf : list N) : bool :=
-  Nat.eqb (length buf) 64 &&
-  match buf with
-  | b0 :: b1 :: _ => ((b0 =? 0x17) || ((b0 =? 0x19) && (b1 =? 0x20))) &&
-                     (Nat.eqb (count_msgtype L) 0 || (b1 =? msgtype_of L))
-  | _ => false
-  end.
+  Nat.eqb (length buf) 64 && som_ok buf && msgtypes_match L buf.
 
 Fixpoint fields_admit (L : layout) (buf : list N) (vs : list fval) : bool :=
   match L, vs with
